@@ -499,14 +499,15 @@ func suitable(op string, d Desc) bool {
 // and adds one case per step (the inputs of each step are the implementation's own previous outputs).
 func Chain(run *hx.Run, r *hx.Rng, kinds []string, maxDepth int) {
 	opt := Options{}
-	if r.Chance(1, 8) {
-		opt.Even = true
+	if r.Chance(1, 5) {
+		opt.Even = true // even coordinates: the centre operation is exact on them
 	}
 	var cur Desc
 	focus := false  // structured source: mostly the index-remapping operations
 	subsel := false // first step: SetIndices with a subset of the mesh's own primitives
 	preferDecimal = 99
 	weldFirst := false
+	centreFirst := false
 	switch r.Intn(10) {
 	case 8, 9:
 		cur, preferDecimal = Clustered(r)
@@ -531,6 +532,7 @@ func Chain(run *hx.Run, r *hx.Rng, kinds []string, maxDepth int) {
 		cur = Random(r, opt)
 		run.Count("source:random")
 		subsel = r.Chance(1, 12)
+		centreFirst = opt.Even && r.Chance(1, 2)
 	}
 	pool := []Desc{cur}
 	depth := r.Range(1, maxDepth)
@@ -549,6 +551,9 @@ func Chain(run *hx.Run, r *hx.Rng, kinds []string, maxDepth int) {
 				break
 			}
 			o = OpDesc{Op: "unweld"}
+		}
+		if centreFirst && s == 0 && !subsel && suitable("center", cur) {
+			o = RandomOp(r, cur, []string{"center"})
 		}
 		if weldFirst && s == 0 {
 			o = RandomOp(r, cur, []string{"weld"})
